@@ -4,7 +4,12 @@
 From Apko Require Import Base.Prelude Generated.Transport.
 
 Inductive skind := HonoursRange | IgnoresRange | RejectsRange.
-Record server := { data : list N; kind : skind }.
+(* bare: the server's error responses (416, 4xx, 5xx) carry no body
+   (Content-Length: 0). net/http hands such a response over with
+   Body == http.NoBody, and reset returns (resp, nil) BEFORE it looks at the
+   status, leaving the previous, closed body in place: the retry loop goes on
+   and every further body read fails. With a body, reset fails on the status. *)
+Record server := { data : list N; kind : skind; bare : bool }.
 
 (* one body.Read outcome: deliver up to [rk] bytes (at least one when not
    failing), then report a non-EOF error if [rfail]; [reager] = report EOF
@@ -12,8 +17,14 @@ Record server := { data : list N; kind : skind }.
 Record rd_ev := { rk : nat; rfail : bool; reager : bool }.
 (* one client.Do outcome *)
 (* CServeAs k: this connection is answered by a backend of kind k, whatever the
-   session's default kind (a CDN whose nodes differ) *)
-Inductive conn_ev := CServe | CErr | CStatus | CServeAs (k : skind).
+   session's default kind (a CDN whose nodes differ).
+   CCloseDelim k n: answered by a backend of kind k with a response that carries
+   neither Content-Length nor chunked encoding (its end is the end of the
+   connection) and whose connection is closed CLEANLY after n body bytes: to
+   net/http, and so to the reader, that is a body of n bytes followed by EOF.
+   Every other response is framed: net/http turns an early close into a non-EOF
+   error (a failing rd_ev). *)
+Inductive conn_ev := CServe | CErr | CStatus | CServeAs (k : skind) | CCloseDelim (k : skind) (n : nat).
 
 Inductive err := ENone | EEOF | EFail.
 
@@ -89,23 +100,29 @@ Definition reset (srv : server) (s : st) : res (st * bool) :=
   let rng := match progress s with O => None | p => Some p end in
   let (c, conns') := next_conn (conns s) in
   let s1 := {| progress := progress s; bdy := closed; reads := reads s; conns := conns'; reqs := reqs s ++ [rng] |} in
-  let knd := match c with CServeAs k => k | _ => kind srv end in
+  let knd := match c with CServeAs k | CCloseDelim k _ => k | _ => kind srv end in
+  (* an error status: reset fails, unless the response has no body (see [bare]);
+     a close-delimited response always has one *)
+  let refused := Ok (s1, match c with CCloseDelim _ _ => false | _ => bare srv end) in
+  (* what of a response body reaches the reader before the clean end *)
+  let upto (l : list N) := match c with CCloseDelim _ n => firstn n l | _ => l end in
   match c with
-  | CErr | CStatus => Ok (s1, false)
-  | CServe | CServeAs _ =>
+  | CErr => Ok (s1, false)
+  | CStatus => refused
+  | CServe | CServeAs _ | CCloseDelim _ _ =>
     match rng with
-    | None => Ok ({| progress := progress s; bdy := {| rest := data srv; dead := false |};
+    | None => Ok ({| progress := progress s; bdy := {| rest := upto (data srv); dead := false |};
                      reads := reads s; conns := conns'; reqs := reqs s1 |}, true)
     | Some p =>
       match knd with
-      | RejectsRange => Ok (s1, false)
+      | RejectsRange => refused
       | HonoursRange =>
           if Nat.ltb p (List.length (data srv))
-          then Ok ({| progress := p; bdy := {| rest := skipn p (data srv); dead := false |};
+          then Ok ({| progress := p; bdy := {| rest := upto (skipn p (data srv)); dead := false |};
                       reads := reads s; conns := conns'; reqs := reqs s1 |}, true)
-          else Ok (s1, false)     (* 416 *)
+          else refused            (* 416 *)
       | IgnoresRange =>
-          do r <- discard p p {| rest := data srv; dead := false |} (reads s);
+          do r <- discard p p {| rest := upto (data srv); dead := false |} (reads s);
           match r with
           | (Some b, evs') => Ok ({| progress := p; bdy := b; reads := evs'; conns := conns'; reqs := reqs s1 |}, true)
           | (None, evs') => Ok ({| progress := p; bdy := closed; reads := evs'; conns := conns'; reqs := reqs s1 |}, false)
@@ -141,9 +158,13 @@ Definition read_call (srv : server) (sched : list bool) (s : st) (lenp : nat) : 
   Ok ({| progress := progress s' + List.length out; bdy := bdy s'; reads := reads s';
          conns := conns s'; reqs := reqs s' |}, (out, e)).
 
-(* RoundTrip: the initial reset with progress 0 *)
+(* RoundTrip: the initial reset with progress 0, and the callers' status check
+   (FetchPackage and fetchRepositoryIndex refuse any status but 200): at
+   progress 0 the only reset that returns without a live body is the one that
+   met a no-body error response *)
 Definition open (srv : server) (rds : list rd_ev) (cns : list conn_ev) : res (st * bool) :=
-  reset srv {| progress := 0; bdy := {| rest := []; dead := true |}; reads := rds; conns := cns; reqs := [] |}.
+  do r <- reset srv {| progress := 0; bdy := {| rest := []; dead := true |}; reads := rds; conns := cns; reqs := [] |};
+  let (s, ok) := r in Ok (s, ok && negb (dead (bdy s))).
 
 Fixpoint read_calls (srv : server) (sched : list bool) (s : st) (bufs : list nat)
   : res (st * list (list N * err)) :=
